@@ -122,16 +122,19 @@ def gen_fourier(rng, flavour):
     k1, k0 = rng.randint(2, 4), rng.randint(4, 7)
     shape = [1, 1, k1, k0]
     n = k1 * k0
+    # overshoot: trajectories that leave the encoded k-space (radial / spiral overshoot, measured trajectories); the encoding
+    # model is a Fourier sum at whatever position the sample has
+    over = rng.choice([1.0, 1.0, 1.0, 1.3, 1.7])
     if flavour == 'radial2d':
         ang = [math.pi * i / k1 for i in range(k1)]
-        rad = [(-0.5 + j / k0) for j in range(k0)]
+        rad = [over * (-0.5 + j / k0) for j in range(k0)]
         kx = [r * math.cos(a) * enc[2] for a in ang for r in rad]
         ky = [r * math.sin(a) * enc[1] for a in ang for r in rad]
         kz = None
     else:
-        kx = [rng.uniform(-enc[2] / 2, enc[2] / 2 - 0.01) for _ in range(n)]
-        ky = [rng.uniform(-enc[1] / 2, enc[1] / 2 - 0.01) for _ in range(n)] if dims >= 2 else None
-        kz = [rng.uniform(-enc[0] / 2, enc[0] / 2 - 0.01) for _ in range(n)] if dims == 3 else None
+        kx = [over * rng.uniform(-enc[2] / 2, enc[2] / 2 - 0.01) for _ in range(n)]
+        ky = [over * rng.uniform(-enc[1] / 2, enc[1] / 2 - 0.01) for _ in range(n)] if dims >= 2 else None
+        kz = [over * rng.uniform(-enc[0] / 2, enc[0] / 2 - 0.01) for _ in range(n)] if dims == 3 else None
 
     def comp(v):
         return {'shape': shape, 'vals': [dy(t) for t in v]} if v is not None else {'shape': [1, 1, 1, 1], 'vals': ['0']}
